@@ -23,6 +23,18 @@ type delivery struct {
 
 func (ru *run) mutate(vb *chainBlock) *chainBlock {
 	t := ru.t
+	// the block that gets damaged is either the valid block itself or a freshly planned SIBLING of it (other slot,
+	// other tickets / preimages / disputes): what a rejected block may leave behind then differs from what the
+	// valid block that follows it brings
+	if t.Prob(1, 2, "damage_a_sibling") {
+		ru.moreDisputes = true
+		plan := ru.planBlock(vb.parent)
+		ru.moreDisputes = false
+		if sb, err := ru.a.build(vb.parent, plan); err == nil {
+			vb = &chainBlock{block: sb, hash: headerHash(sb.Header), parent: vb.parent, depth: vb.depth, offenders: plan.offenders, ticketPicks: plan.ticketPicks}
+			ru.r.Count("fault:damaged_block_is_a_sibling", 1)
+		}
+	}
 	for try := 0; try < 6; try++ {
 		m := &mutations[t.Choose(len(mutations), "mutation")]
 		b := cloneBlock(vb.block)
